@@ -1,5 +1,6 @@
 import Iec.Drv.Util
 import Iec.Model.Srv104
+import Iec.Gen.Consts104
 /-
 Driver commands for the CS104 server model (same operation lines as harness/srv104.c).
 Connections are addressed by the handle number the harness gave the incoming socket.
@@ -60,7 +61,7 @@ def handle (st : St) (ws : List String) : Option (St × String) :=
   | ["s.new", mode, k, w, t0, t1, t2, t3, maxopen, lowq, highq, rep, scot, sca] =>
       let p : Params := { k := nat! k, w := nat! w, t0 := nat! t0, t1 := nat! t1, t2 := nat! t2, t3 := nat! t3,
                           mode := nat! mode, maxOpen := nat! maxopen, lowQ := nat! lowq, highQ := nat! highq,
-                          asduHdr := 2 + nat! scot + nat! sca, replies := nat! rep, nSlots := 100 }
+                          asduHdr := 2 + nat! scot + nat! sca, replies := nat! rep, nSlots := Iec.Gen.maxClientConnections }
       some ({ s := none, p := some p, groups := [], nextHid := 0 }, "ok")
   | ["s.group", name, ips] => some ({ st with groups := st.groups ++ [(name, parseAllowed ips)] }, "ok")
   | ["s.start"] => do
